@@ -14,6 +14,14 @@
         if run == l0_common.RUN_NAME: return l0_common.violates(run, case, impl, model)
         ...
 
+Second group (integer logic that the OTHER hand-written models restate, coq/Gen/GoArith2.v):
+
+    COQ_TARGETS = [...] + l0_common.COQ_TARGETS2_BY_OWNER["C14"]   # only what the property's model restates
+    (or l0_common.COQ_TARGETS2 for all of it), PROPS_FILES2 = ["Props/Properties_L0b.v"] (restates ALL
+    second-group theorems, so it depends on all owners' models), RUNS2 (translation validation of the
+    second group), TRUSTED2, EXTRA_OBLIGATIONS2_BY_OWNER (theorem names for EXTRA_OBLIGATIONS).
+    generate() regenerates both generated files.  See docs/gotrans.md for the owner table.
+
 `./l0check.sh [--tier quick|thorough]` runs all of it stand-alone and prints OK / FAIL.
 """
 import os
@@ -33,6 +41,45 @@ PROPS_FILES = ["Props/Properties_L0.v"]
 RUN_NAME = "l0"
 RUN = dict(name=RUN_NAME, harness="l0", driver="l0", model_ml="goarith_model")
 RUNS = [RUN]
+
+# ---- second group
+GOARITH2_V = os.path.join(vcheck.COQ, "Gen", "GoArith2.v")
+GOARITH2_SIGS = os.path.join(vcheck.COQ, "Gen", "GoArith2.sigs")
+EXTRACT2 = _EX2 = "Extract/ExtractGoArith2.vo"  # needed in COQ_TARGETS by whoever adds RUNS2
+COQ_TARGETS2_BY_OWNER = {
+    # property -> .vo files whose build is the kernel-checked obligation "the Go code still says what the model restates"
+    "C04": ["Gen/Agree2Builder.vo"], "C05": ["Gen/Agree2Builder.vo"], "C16": ["Gen/Agree2Builder.vo"],
+    "C14": ["Gen/Agree2Frame.vo"],
+    "C15": ["Gen/Agree2Layout.vo"],
+    "C19": ["Gen/Agree2Pogs.vo"],
+    "C20": ["Gen/Agree2Text.vo"],
+    "C13": ["Gen/Agree2Misc.vo"],
+}
+EXTRA_OBLIGATIONS2_BY_OWNER = {
+    "C04": ["Gen/Agree2Builder.v:go_nextAlloc_agrees", "Gen/Agree2Builder.v:go_hasCapacity_agrees",
+            "Gen/Agree2Builder.v:go_maxAllocSize_agrees"],
+    "C14": ["Gen/Agree2Frame.v:go_streamHeaderSize_agrees", "Gen/Agree2Frame.v:go_segmentSize_agrees",
+            "Gen/Agree2Frame.v:go_segmentSize_agrees_header"],
+    "C15": ["Gen/Agree2Layout.v:go_gen_Offset_agrees", "Gen/Agree2Layout.v:go_intbits_agrees",
+            "Gen/Agree2Layout.v:go_intbits_other", "Gen/Agree2Layout.v:go_intFieldDefaultMask_agrees",
+            "Gen/Agree2Layout.v:go_intFieldDefaultMask_invalid"],
+    "C19": ["Gen/Agree2Pogs.v:go_isFieldInBounds_agrees"],
+    "C20": ["Gen/Agree2Text.v:go_needsEscape_agrees", "Gen/Agree2Text.v:go_hexDigit_agrees"],
+    "C13": ["Gen/Agree2Misc.v:go_packed_min_agrees"],
+}
+EXTRA_OBLIGATIONS2_BY_OWNER["C05"] = EXTRA_OBLIGATIONS2_BY_OWNER["C16"] = EXTRA_OBLIGATIONS2_BY_OWNER["C04"]
+COQ_TARGETS2 = ["Gen/GoArith2.vo", "Gen/GoArithAgree2.vo", _EX2, "Props/Properties_L0b.vo"]
+PROPS_FILES2 = ["Props/Properties_L0b.v"]
+RUN2_NAME = "l0b"
+RUN2 = dict(name=RUN2_NAME, harness="l0", driver="l0b", model_ml="goarith2_model", harness_args=["-group", "2"])
+RUNS2 = [RUN2]
+TRUSTED2 = [
+    "second group of gotrans: error results are observed as nil / non-nil only; a for loop is a Fixpoint over an explicit "
+    "fuel (agreement theorems prove the stated fuel sufficient); constant-string indexing is go_index_bytes; parameters of "
+    "slice / capnp struct type are replaced by the abstracted quantities listed in gotrans/targets.go (cap(b), len(b), "
+    "t.Which(), v.IsValid(), v.Which(), intValue(v), p.Field.Slot().Offset(), p.Bits, the 32-bit word read by segmentSize)",
+    "capnpc-go (package main) is validated through a child process built with -tags verif (capnpc-go/verif_arith.go)",
+]
 
 TRUSTED = [
     "translator gotrans (Go subset -> Gallina, gotrans/*.go) and the Go-integer semantics of coq/Base/GoSem.v "
@@ -62,23 +109,25 @@ def generate(res):
     supported subset.  Returns notes for the evidence: source hashes, changed/unchanged."""
     exe = build_gotrans()
     with vcheck.Lock("gotrans-run"):
-        rc, out = vcheck.sh([exe, "-repo", vcheck.REPO, "-out", GOARITH_V, "-sigs", GOARITH_SIGS],
+        rc, out = vcheck.sh([exe, "-repo", vcheck.REPO, "-out", GOARITH_V, "-sigs", GOARITH_SIGS,
+                             "-out2", GOARITH2_V, "-sigs2", GOARITH2_SIGS],
                             cwd=vcheck.VERIF, env=vcheck.GOENV, timeout=600)
     if rc != 0:
         raise RuntimeError(out.strip()[-1500:])
     notes = [line.replace(vcheck.VERIF + "/", "") for line in out.strip().split("\n") if line]
-    nfun = 0
-    for line in open(GOARITH_SIGS):
-        if line.startswith("# "):
-            notes.append("source sha256 " + line[2:].strip())
-        elif line.strip() and not line.startswith("struct "):
-            nfun += 1
-    notes.append("gotrans: %d functions translated" % nfun)
+    for grp, path in (("", GOARITH_SIGS), (" (second group)", GOARITH2_SIGS)):
+        nfun = 0
+        for line in open(path):
+            if line.startswith("# "):
+                notes.append("source sha256%s %s" % (grp, line[2:].strip()))
+            elif line.strip() and not line.startswith("struct "):
+                nfun += 1
+        notes.append("gotrans: %d functions translated%s" % (nfun, grp))
     return notes
 
 
 def classify(run, case, impl, model):
-    return "l0/%s/impl=%s/model=%s" % (case.split()[0], impl.split()[0], model.split()[0])
+    return "%s/%s/impl=%s/model=%s" % (run if run == RUN2_NAME else "l0", case.split()[0], impl.split()[0], model.split()[0])
 
 
 def violates(run, case, impl, model):
@@ -106,22 +155,27 @@ def main(argv):
         log("translator failed closed: %s" % e)
         log("FAIL l0check: gotrans")
         return 1
-    ok, out = vcheck.coq_make(COQ_TARGETS)
+    all_targets = COQ_TARGETS + COQ_TARGETS2
+    ok, out = vcheck.coq_make(all_targets)
     if not ok:
         f, line = vcheck.coq_failed_file(out)
         log(out[-3000:])
         log("coq build failed at %s line %d" % (f, line))
         fails.append("coq")
     else:
-        log("coq: %s built" % " ".join(COQ_TARGETS))
-        for pf in PROPS_FILES:
+        log("coq: %s built" % " ".join(all_targets))
+        for pf in PROPS_FILES + PROPS_FILES2:
             _, pa, _ = vcheck.print_assumptions(pf)
             bad = {k: v for k, v in pa.items() if v != "Closed under the global context"}
             log("Print Assumptions: %d theorems, %d not closed" % (len(pa), len(bad)))
             if bad or not pa:
                 log(str(bad))
                 fails.append("assumptions")
-    bad = vcheck.audit(vcheck.coq_dep_closure([t[:-1] for t in COQ_TARGETS]))
+    # audit our own files (the owners' model files are audited by their properties)
+    mine = [f for f in vcheck.coq_dep_closure([t[:-1] for t in all_targets])
+            if f.split("/")[0] in ("Base", "Gen", "Extract") or f in ("Core/Arith.v", "Core/ArithMore.v", "Core/ArithFacts.v",
+                                                                       "Props/Properties_L0.v", "Props/Properties_L0b.v")]
+    bad = vcheck.audit(mine)
     if bad:
         log("audit: forbidden constructs:\n" + "\n".join(bad))
         fails.append("audit")
@@ -131,7 +185,7 @@ def main(argv):
     if not ok:
         # still validate the translator: the extraction depends on the generated file only.
         # proof broken + validation agrees => the Go arithmetic changed; validation disagrees => translator bug
-        extracted, out2 = vcheck.coq_make(["Extract/ExtractGoArith.vo"])
+        extracted, out2 = vcheck.coq_make(["Extract/ExtractGoArith.vo", _EX2])
         if not extracted:
             log(out2[-1500:])
     if extracted:
@@ -140,17 +194,24 @@ def main(argv):
             log("harness build failed:\n" + hout[-3000:])
             fails.append("harness")
         else:
-            res = vcheck.Result("L0", a.tier, seed)
-            stats, mism, err = vcheck.run_pair(res, None, RUN, exe, a.tier, seed, a.replay)
-            if err:
-                log("translation validation could not be run: " + err)
-                fails.append("validation")
-            else:
-                log("translation validation: %d cases (%d distinct), %d disagreements"
-                    % (stats["evaluations"], stats["distinct"], len(mism)))
+            runs = (RUN, RUN2)
+            if a.replay:
+                # a replay file belongs to the group that translates the function of its first case
+                first = [l.split()[0] for l in open(a.replay) if l.strip() and not l.startswith("#")][:1]
+                names2 = set(l.split()[0] for l in open(GOARITH2_SIGS) if l.strip() and l[0] not in "#s")
+                runs = (RUN2,) if first and first[0] in names2 else (RUN,)
+            for run in runs:
+                res = vcheck.Result("L0", a.tier, seed)
+                stats, mism, err = vcheck.run_pair(res, None, run, exe, a.tier, seed, a.replay)
+                if err:
+                    log("translation validation %s could not be run: %s" % (run["name"], err))
+                    fails.append("validation")
+                    continue
+                log("translation validation %s: %d cases (%d distinct), %d disagreements"
+                    % (run["name"], stats["evaluations"], stats["distinct"], len(mism)))
                 groups = {}
                 for (c, i, m) in mism:
-                    groups.setdefault(classify(RUN_NAME, c, i, m), []).append((c, i, m))
+                    groups.setdefault(classify(run["name"], c, i, m), []).append((c, i, m))
                 for sig, ms in sorted(groups.items()):
                     ms.sort(key=lambda x: len(x[0]))
                     log("  %s: %d cases, e.g. %s  impl: %s  model: %s" % ((sig, len(ms)) + ms[0]))
